@@ -1,8 +1,292 @@
 import Karp.Driver.Proto
+import Karp.Model.Lifecycle
+import Karp.Spec.LifecycleOrder
 
 namespace Karp.Driver.C14
-open Lean Karp.Driver
+open Lean Karp.Driver Karp.Lifecycle
+open Karp.Spec.LifecycleOrder (StepObs CreateObs Acc)
 
-def handle : Handler := fun op _ _ => .error s!"unknown op {op}"
+/-! ## JSON -> vocabulary -/
+
+def parseTaint (j : Json) : Except String Taint := do
+  match ← asArr j with
+  | [k, e] => pure ⟨← asStr k, ← asStr e⟩
+  | _ => throw "taint: expected [key, effect]"
+
+def taintsF (j : Json) (k : String) : Except String (List Taint) := do
+  (← arrD j k).mapM parseTaint
+
+def parseErr (s : String) : Except String Err :=
+  match s with
+  | "conflict" => pure .conflict
+  | "notfound" => pure .notFound
+  | "err" => pure .other
+  | _ => throw s!"bad error class {s}"
+
+def faultO (j : Json) (k : String) : Except String (Option Err) :=
+  match fldOpt j k with
+  | none => pure none
+  | some v => do pure (some (← parseErr (← asStr v)))
+
+def parseFaults (j : Option Json) : Except String Faults :=
+  match j with
+  | none => pure {}
+  | some f => do
+    pure { finPatch := ← faultO f "nc.patch.lock", claimDelete := ← faultO f "nc.delete",
+           nodeList := (fldOpt f "node.list").isSome, nodePatchLock := ← faultO f "node.patch.lock",
+           nodePatch := ← faultO f "node.patch", metaPatch := ← faultO f "nc.patch", statusPatch := ← faultO f "nc.status" }
+
+def parseCreate (s : String) : Except String CreateOutcome :=
+  match s with
+  | "" => pure .ok
+  | "ice" => pure .ice
+  | "ncnr" => pure .ncnr
+  | "gen" => pure .generic
+  | "cerr" => pure .createErr
+  | _ => throw s!"bad create outcome {s}"
+
+def parseSpec (j : Json) : Except String (Spec × Bool) := do
+  let res ← natF j "res"
+  pure ({ startup := ← taintsF j "startup", taints := ← taintsF j "taints", wantsRes := res == 1 }, ← boolF j "fin")
+
+def parseTri (s : String) : Except String Tri :=
+  match s with
+  | "T" => pure .true_
+  | "F" => pure .false_
+  | "U" => pure .unknown
+  | "" => pure .unknown
+  | _ => throw s!"bad condition status {s}"
+
+def parseReason (s : String) : Except String Reason :=
+  match s.splitOn "|" with
+  | ["StartupTaintsExist", k, e] => pure (.startupTaintsExist ⟨k, e⟩)
+  | ["KnownEphemeralTaintsExist", k, e] => pure (.ephemeralTaintsExist ⟨k, e⟩)
+  | [r] =>
+    match r with
+    | "AwaitingReconciliation" => pure .awaiting
+    | "" => pure .awaiting
+    | "Launched" => pure .launched
+    | "LaunchFailed" => pure .launchFailed
+    | "CustomReason" => pure .custom
+    | "NodeNotFound" => pure .nodeNotFound
+    | "MultipleNodesFound" => pure .multipleNodes
+    | "Registered" => pure .registered
+    | "NodeNotReady" => pure .nodeNotReady
+    | "ResourceNotRegistered" => pure .resourceNotRegistered
+    | "Initialized" => pure .initialized
+    | _ => throw s!"unknown condition reason {r}"
+  | _ => throw s!"unknown condition reason {s}"
+
+def parseClaim (j : Json) : Except String Claim := do
+  let str (k : String) : Except String String := do pure ((← strO j k).getD "")
+  let cond (s r t : String) : Except String Cond := do
+    pure { status := ← parseTri (← str s), reason := ← parseReason (← str r), ltt := ((← intO j t).getD 0).toNat }
+  pure { present := ← boolD j "exists" false, finalizer := ← boolD j "fin" false, deleting := ← boolD j "del" false,
+         conds := { init := ← boolD j "conds" false, l := ← cond "L" "Lr" "Lt", r := ← cond "R" "Rr" "Rt", i := ← cond "I" "Ir" "It" },
+         providerID := ← boolD j "pid" false, provLabels := ← boolD j "plabels" false, nodeName := ← boolD j "nodeName" false }
+
+def parseNode (j : Json) : Except String Node := do
+  pure { taints := ← taintsF j "taints", finalizer := ← boolD j "fin" false, ownerRef := ← boolD j "owner" false,
+         userLabels := ← boolD j "ulabels" false, provLabels := ← boolD j "plabels" false, regLabel := ← boolD j "reg" false,
+         initLabel := ← boolD j "init" false, doNotSync := ← boolD j "dns" false, ready := ← boolD j "ready" false,
+         resOK := ← boolD j "res" false }
+
+def parseCall (s : String) : Except String Call := do
+  match s.splitOn ":" with
+  | [site, out] =>
+    let st ← match site with
+      | "nc.patch.lock" => pure Site.finPatch
+      | "create" => pure Site.create
+      | "nc.delete" => pure Site.claimDelete
+      | "node.patch.lock" => pure Site.nodePatchLock
+      | "node.patch" => pure Site.nodePatch
+      | "nc.patch" => pure Site.metaPatch
+      | "nc.status" => pure Site.statusPatch
+      | _ => throw s!"unknown call site {site}"
+    let o ← match out with
+      | "ok" => pure Outcome.ok
+      | "conflict" => pure Outcome.conflict
+      | "notfound" => pure Outcome.notFound
+      | "err" => pure Outcome.other
+      | "ice" => pure Outcome.ice
+      | "ncnr" => pure Outcome.ncnr
+      | "gen" => pure Outcome.generic
+      | "cerr" => pure Outcome.createErr
+      | _ => throw s!"unknown call outcome {out}"
+    pure ⟨st, o⟩
+  | _ => throw s!"bad call {s}"
+
+def parseResult (s : String) : Except String Result :=
+  match s.splitOn ":" with
+  | ["ok"] => pure .ok
+  | [""] => pure .ok
+  | ["requeue"] => pure .requeue
+  | ["err"] => pure .err
+  | ["after", n] => match n.toNat? with
+    | some k => pure (.after k)
+    | none => throw s!"bad result {s}"
+  | _ => throw s!"bad result {s}"
+
+/-- one recorded step of the implementation -/
+structure ImplStep where
+  obs : StepObs
+  finalizePath : Bool   -- the calls are those of the deletion path (not modelled call by call)
+  instances : Nat
+  now : Nat
+  rawCalls : List String
+
+/-- the deletion path (`finalize`) has call sites of its own; they are not part of the model's call alphabet -/
+def parseCallsLenient (cs : List String) : List Call :=
+  cs.filterMap (fun s => match parseCall s with | .ok c => some c | .error _ => none)
+
+def parseImplStep (j : Json) : Except String ImplStep := do
+  let isRec ← boolD j "rec" false
+  let view ← match fldOpt j "view" with | some v => parseClaim v | none => pure { present := false }
+  let claim ← match fldOpt j "claim" with | some v => parseClaim v | none => pure { present := false }
+  let nodes ← (← arrD j "nodes").mapM parseNode
+  let rawCalls ← (← arrD j "calls").mapM asStr
+  let finPath := isRec && view.present && view.deleting
+  let calls ← if finPath then pure (parseCallsLenient rawCalls) else rawCalls.mapM parseCall
+  let creates ← (← arrD j "creates").mapM (fun c => do
+    pure ({ ok := ← boolD c "ok" false, fin := ← boolD c "fin" false, present := ← boolD c "exists" false } : CreateObs))
+  pure { obs := { isRec := isRec, fresh := false, view := view, calls := calls, result := ← parseResult ((← strO j "result").getD ""),
+                  claim := claim, nodes := nodes, creates := creates },
+         finalizePath := finPath, instances := (← natO j "instances").getD 0, now := (← natO j "now").getD 0, rawCalls := rawCalls }
+
+/-- input step -> model step; `impl` resolves what the (unmodelled) deletion path did -/
+def parseStep (j : Json) (impl : ImplStep) (w : World) : Except String Step := do
+  match ← strF j "k" with
+  | "rec" =>
+    let lag := (← natO j "lag").getD 0
+    let co ← parseCreate ((← strO j "create").getD "")
+    let f ← parseFaults (fldOpt j "f")
+    let view := pickView w lag
+    let fin : FinalizeOut :=
+      if view.present && view.deleting then
+        { removeFinalizer := w.claim.present && !impl.obs.claim.present, nodes := some impl.obs.nodes }
+      else {}
+    pure (.reconcile lag co f fin)
+  | "node" =>
+    pure (.env (.nodeAppear { taints := ← taintsF j "taints", ready := ← boolD j "ready" false, resOK := ← boolD j "res" false,
+                              doNotSync := ← boolD j "dns" false, regLabel := ← boolD j "reg" false }))
+  | "gone" => pure (.env .nodesGone)
+  | "ready" => pure (.env (.setReady true))
+  | "unready" => pure (.env (.setReady false))
+  | "res" => pure (.env (.setRes true))
+  | "unres" => pure (.env (.setRes false))
+  | "addt" => pure (.env (.addTaint (← parseTaint (← fld j "t"))))
+  | "rmt" => pure (.env (.rmTaint (← parseTaint (← fld j "t"))))
+  | "adv" => pure (.env (.advance (← natF j "secs")))
+  | "del" => pure (.env .userDelete)
+  | k => throw s!"bad step kind {k}"
+
+/-! ## Comparison of the model with the implementation -/
+
+def showTaints (ts : List Taint) : String := ",".intercalate (ts.map (fun t => s!"{t.key}:{t.effect}"))
+
+def diffClaim (m i : Claim) : Option String :=
+  if m.present != i.present then some s!"claim.exists model={m.present} impl={i.present}"
+  else if !m.present then none
+  else if m = i then none
+  else some s!"claim model={repr m} impl={repr i}"
+
+def diffNodes (m i : List Node) : Option String :=
+  if m = i then none else some s!"nodes model={repr m} impl={repr i}"
+
+/-- first difference between what the model predicts for the step and what the implementation did -/
+def diffStep (idx : Nat) (w' : World) (o : Obs) (impl : ImplStep) : Option String :=
+  let pre := s!"step {idx}: "
+  if o.isRec && o.view != impl.obs.view && (o.view.present || impl.obs.view.present) then
+    some (pre ++ s!"view model={repr o.view} impl={repr impl.obs.view}")
+  else if !o.finalizing && o.calls != impl.obs.calls then
+    some (pre ++ s!"calls model={repr o.calls} impl={impl.rawCalls}")
+  else if !o.finalizing && o.isRec && o.result != impl.obs.result then
+    some (pre ++ s!"result model={repr o.result} impl={repr impl.obs.result}")
+  else if o.finalizing && impl.obs.calls.any (fun c => c.site == .create) then
+    some (pre ++ "the deletion path called provider Create")
+  else match diffClaim w'.claim impl.obs.claim with
+    | some d => some (pre ++ d)
+    | none => match diffNodes w'.nodes impl.obs.nodes with
+      | some d => some (pre ++ d)
+      | none =>
+        if w'.instances != impl.instances then some (pre ++ s!"instances model={w'.instances} impl={impl.instances}")
+        else if w'.now != impl.now then some (pre ++ s!"clock model={w'.now} impl={impl.now}")
+        else none
+
+/-- run the model along the recorded history; returns the first difference and the spec observations
+    (with `fresh` filled in from the model's view bookkeeping, which only depends on the input) -/
+def replay (sp : Spec) : World → Claim → List Json → List ImplStep → Nat → Option String → List StepObs →
+    Except String (Option String × List StepObs)
+  | _, _, [], _, _, d, acc => pure (d, acc.reverse)
+  | _, _, _ :: _, [], _, _, _ => throw "implementation recorded fewer steps than the input has"
+  | w, prev, j :: js, impl :: impls, idx, d, acc => do
+    let s ← parseStep j impl w
+    let (w', o) := step sp w s
+    -- `fresh`: the copy the implementation was handed equals the API server's copy before the step
+    let so := { impl.obs with fresh := impl.obs.isRec && decide (impl.obs.view = prev) }
+    let d' := match d with
+      | some x => some x
+      | none => diffStep idx w' o impl
+    replay sp w' impl.obs.claim js impls (idx + 1) d' (so :: acc)
+
+def lifecycle (inp impl : Json) : Except String Resp := do
+  let (sp, fin) ← parseSpec (← fld inp "claim")
+  let steps ← arrF inp "steps"
+  match fldOpt impl "steps" with
+  | none => pure { allowed := some false, spec := some false, why := "implementation produced no step list (panic or harness error)" }
+  | some st =>
+    -- an output the vocabulary cannot express (e.g. a call site the modelled paths never use) is a disagreement
+    match (do (← asArr st).mapM parseImplStep : Except String (List ImplStep)) with
+    | .error e => pure { allowed := some false, why := s!"implementation output outside the model's vocabulary: {e}" }
+    | .ok impls =>
+    let w0 := World.init fin
+    let (d, obs) ← replay sp w0 w0.claim steps impls 0 none []
+    let acc0 : Acc := { prev := w0.claim, finEver := fin }
+    let viol := Karp.Spec.LifecycleOrder.firstViolation sp acc0 obs 0
+    let why := match viol, d with
+      | some v, _ => v
+      | none, some x => x
+      | none, none => ""
+    pure { allowed := some d.isNone, spec := some viol.isNone, why := why }
+
+/-! ## Leaf op: the three exported initialization predicates -/
+
+def pairList (j : Json) (k : String) : Except String (List (Nat × Nat)) := do
+  (← arrD j k).mapM (fun p => do
+    match ← natList p with
+    | [a, b] => pure (a, b)
+    | _ => throw "expected [index, quantity]")
+
+def initChecks (inp impl : Json) : Except String Resp := do
+  let startup ← taintsF inp "startup"
+  let nodeTaints ← taintsF inp "node"
+  let reqs ← pairList inp "reqs"     -- requested extended resources (index, quantity)
+  let alloc ← pairList inp "alloc"   -- node allocatable (index, quantity)
+  let sp : Spec := { startup := startup }
+  let n : Node := { taints := nodeTaints, ready := true }
+  let tj (t : Option Taint) : Json := match t with
+    | none => Json.null
+    | some t => jArr [jStr t.key, jStr t.effect]
+  -- `RequestedResourcesRegistered`: every non-zero request has non-zero allocatable
+  let registered := reqs.all (fun (r, q) => q == 0 || alloc.any (fun (a, v) => a == r && v != 0))
+  let model := jObj [("startup", tj (firstStartupTaint sp n)), ("ephemeral", tj (firstEphemeralTaint n)), ("resources", jBool registered)]
+  -- the property's reading, evaluated on what the real functions answered
+  let implStartupOK := (fldOpt impl "startup").isNone
+  let implEphOK := (fldOpt impl "ephemeral").isNone
+  let implRes ← boolF impl "resources"
+  let specStartup := startup.all (fun s => !nodeTaints.contains s)
+  let specEph := nodeTaints.all (fun t => !Karp.Spec.LifecycleOrder.isEphemeral t)
+  let specRes := reqs.all (fun (r, q) => q == 0 || (alloc.filter (fun (a, _) => a == r)).any (fun (_, v) => v > 0))
+  let ok := implStartupOK == specStartup && implEphOK == specEph && implRes == specRes
+  let why := if ok then "" else
+    s!"startup taints gone: spec {specStartup} impl {implStartupOK}; ephemeral taints gone: spec {specEph} impl {implEphOK}; resources reported: spec {specRes} impl {implRes}"
+  pure { model := some model, spec := some ok, why := why }
+
+def handle : Handler := fun op inp impl =>
+  match op with
+  | "c14.lifecycle" => lifecycle inp impl
+  | "c14.faults" => lifecycle inp impl
+  | "c14.init" => initChecks inp impl
+  | _ => .error s!"unknown op {op}"
 
 end Karp.Driver.C14
